@@ -1700,7 +1700,11 @@ class Int(ConstantOpcode):
 
     @classmethod
     def validate(cls, obj):
-        _ = int(obj)
+        # only accept real integers: int() also converts floats, numeric strings and bytes, and
+        # since this class has a better priority than the float/str/bytes opcodes it would silently
+        # turn e.g. 1.5 into 1 and "123" into 123
+        if not isinstance(obj, int):
+            raise ValueError(f"{cls.__name__} can only be instantiated from integers, not {obj!r}")
         return obj
 
 
